@@ -154,11 +154,10 @@ def gen_cases(rng, tier):
                     h += ['t1', 'r%d' % K[k]]
             g = rng.choice(gapset)
             if slow:
-                # the timeout restarts at every press: keep press-to-press distances (releases in between included) below it
-                if d == 'd':
-                    since_press = 0
-                g = max(0, min(g, T - 2 - since_press))
-                since_press += g
+                # the timeout restarts at every press: the press-to-press distance (releases in between included) stays below it, and
+                # every event still has a millisecond of its own
+                nxt = next((jj for jj in range(j + 1, len(ev)) if ev[jj][0] == 'd'), len(ev))
+                g = max(1, (T - 2) // max(1, nxt - (max(jj for jj in range(j + 1) if ev[jj][0] == 'd') if any(e2[0] == 'd' for e2 in ev[:j + 1]) else 0)))
             h.append('t%d' % g)
         for k in downs:
             h += ['u%d' % K[k], 't2']
